@@ -74,10 +74,30 @@ pub fn start_watchdog(limit_ms: u64) {
     });
 }
 
+thread_local! {
+    static TICKS_THIS_CALL: std::cell::Cell<u64> = const { std::cell::Cell::new(0) };
+}
+/// Installed as dfir_rs' `verif_hooks` controller (cfg hydro_verif yield points of the run loop):
+/// counts the ticks of the current run call and turns a run_available that does not stop into a
+/// panic (caught and logged as data) instead of a hang.
+pub fn install_tick_guard() {
+    dfir_rs::scheduled::context::verif_hooks::set(Some(std::sync::Arc::new(|point: &'static str| {
+        if point == "tick_swapped" {
+            let n = TICKS_THIS_CALL.with(|c| {
+                c.set(c.get() + 1);
+                c.get()
+            });
+            if n > RUNAWAY {
+                panic!("runaway");
+            }
+        }
+    })));
+}
+
 /// Called by every generated sink closure.
 pub fn sink<T: ToV>(log: &Log, k: usize, tick: u64, x: &T) {
     if tick > TICK_LIMIT.with(|c| c.get()) {
-        panic!("runaway: more than {} ticks in one run call", RUNAWAY);
+        panic!("runaway");
     }
     log.borrow_mut().push((k, tick, x.to_v()));
 }
@@ -112,6 +132,7 @@ pub fn drive(df: &mut dyn Runner, senders: &[Sender], log: &Log, nsink: usize, s
         let tb = df.now();
         log.borrow_mut().clear();
         TICK_LIMIT.with(|c| c.set(tb + RUNAWAY));
+        TICKS_THIS_CALL.with(|c| c.set(0));
         DEADLINE_MS.store(now_ms(), std::sync::atomic::Ordering::Relaxed);
         let r = hv_common::catch(|| if mode == "tick" { df.tick() } else { df.avail(); true });
         DEADLINE_MS.store(0, std::sync::atomic::Ordering::Relaxed);
